@@ -108,12 +108,13 @@ func (server *Server) Start() error {
 	}
 	verifPoint("start.opened", nil)
 
+	// Each accept loop gets the listener it serves, so that it never touches a listener opened by a later Start.
 	if server.IsPortEnabled() {
-		go server.serve()
+		go server.serve(server.portListener)
 	}
 
 	if server.IsTLSPortEnabled() {
-		go server.tlsServe()
+		go server.tlsServe(server.tlsPortListener, server.tlsConfig)
 	}
 
 	return nil
@@ -209,16 +210,16 @@ func (server *Server) close() error {
 }
 
 // serve handles client connections.
-func (server *Server) serve() error {
+func (server *Server) serve(l net.Listener) error {
 	defer verifPoint("serve.exit", nil)
-	defer server.close()
+	if l == nil {
+		return nil
+	}
+	// Closes only the listener of this loop.
+	defer l.Close()
 
-	l := server.portListener
 	verifPoint("serve.enter", l)
 	for {
-		if l == nil {
-			break
-		}
 		conn, err := l.Accept()
 		if err != nil {
 			verifPoint("serve.accept-error", l)
@@ -227,27 +228,26 @@ func (server *Server) serve() error {
 
 		go server.receive(conn, nil)
 	}
-
-	return nil
 }
 
 // tlsServe handles client connections with TLS.
-func (server *Server) tlsServe() error {
+func (server *Server) tlsServe(l net.Listener, tlsConfig *tls.Config) error {
 	defer verifPoint("tlsserve.exit", nil)
-	defer server.close()
-	l := server.tlsPortListener
+	if l == nil {
+		return nil
+	}
+	// Closes only the listener of this loop.
+	defer l.Close()
+
 	verifPoint("tlsserve.enter", l)
 	for {
-		if l == nil {
-			break
-		}
 		conn, err := l.Accept()
 		if err != nil {
 			verifPoint("tlsserve.accept-error", l)
 			return err
 		}
 
-		tlsConn := tls.Server(conn, server.tlsConfig)
+		tlsConn := tls.Server(conn, tlsConfig)
 		verifPoint("tls.handshake.begin", conn)
 		if err := tlsConn.Handshake(); err != nil {
 			verifPoint("tls.handshake.end", err)
@@ -258,8 +258,6 @@ func (server *Server) tlsServe() error {
 
 		go server.receive(tlsConn, &tlsState)
 	}
-
-	return nil
 }
 
 // receive handles a client connection.
